@@ -361,22 +361,22 @@ def render_module(mod, rng):
             L.append("    end subroutine %s" % e["name"])
             L.append("  end interface")
         elif k == "sub":
-            arg = "a" if (e.get("argtype") or e.get("uses")) else ""
+            arg = e["name"] + "_a" if (e.get("argtype") or e.get("uses")) else ""
             contains += ["  subroutine %s(%s)" % (e["name"], arg), "    !! %s" % e["tr"]]
             for u in e.get("uses") or []:
                 contains.append("    " + _use_line(rng, u))
             if arg:
-                contains.append("    %s :: a" % ("type(%s)" % e["argtype"] if e.get("argtype") else "integer"))
+                contains.append("    %s :: %s" % ("type(%s)" % e["argtype"] if e.get("argtype") else "integer", arg))
             for c in e.get("calls") or []:
                 contains.append("    call %s()" % c)
             contains.append("  end subroutine %s" % e["name"])
         elif k == "iface":
             L.append("  interface")
-            L.append("    subroutine %s(a)" % e["name"])
+            L.append("    subroutine %s(%s_a)" % (e["name"], e["name"]))
             L.append("      !! %s" % e["tr"])
             for u in e.get("uses") or []:
                 L.append("      " + _use_line(rng, u))
-            L.append("      %s :: a" % ("type(%s)" % e["argtype"] if e.get("argtype") else "integer"))
+            L.append("      %s :: %s_a" % ("type(%s)" % e["argtype"] if e.get("argtype") else "integer", e["name"]))
             L.append("    end subroutine %s" % e["name"])
             L.append("  end interface")
         elif k == "func":
